@@ -11,6 +11,7 @@ import (
 	"runtime/debug"
 	"sort"
 	"strings"
+	"sync/atomic"
 	"time"
 
 	"github.com/go-openapi/loads"
@@ -151,6 +152,7 @@ func buildCatalogue(seed int64, rec *hook.Recorder, want int, withSpec bool) map
 			"c": gen.M{"type": "array", "items": gen.M{"type": "string", "format": []string{"date", "email", "uuid"}[r.Intn(3)]}},
 			"d": gen.M{"anyOf": []interface{}{gen.M{"type": "string", "format": "email"}, gen.M{"type": "integer"}}},
 			"e": gen.M{"not": gen.M{"type": "string", "format": "uuid"}},
+			"f": gen.M{"oneOf": []interface{}{gen.M{"type": "integer"}, gen.M{"type": "string", "format": "date"}, gen.M{"type": "string", "format": "email"}}},
 		}}
 		if r.Intn(2) == 0 {
 			s["oneOf"] = []interface{}{gen.M{"required": []interface{}{"a"}}, gen.M{"required": []interface{}{"zz"}}}
@@ -216,10 +218,10 @@ func buildCatalogue(seed int64, rec *hook.Recorder, want int, withSpec bool) map
 	}
 	// format-bearing workloads with instances that reach every format check (the panic injection points of C11)
 	fmtInsts := []string{
-		`{"a":"2020-01-01","b":"2020-01-01","c":["2020-01-01","a@b.co","a8098c1a-f86e-11da-bd1a-00112444be1e"],"d":"a@b.co","e":"zz"}`,
+		`{"a":"2020-01-01","b":"2020-01-01","c":["2020-01-01","a@b.co","a8098c1a-f86e-11da-bd1a-00112444be1e"],"d":"a@b.co","e":"zz","f":"2020-01-01"}`,
 		`{"a":"nope","b":"2020-01-01","c":["x"],"d":"zz","e":"a8098c1a-f86e-11da-bd1a-00112444be1e"}`,
-		`{"e":"zz","c":["2020-01-01","2020-01-02"],"a":"2020-01-01"}`,
-		`{"b":"nope","d":5,"e":"a8098c1a-f86e-11da-bd1a-00112444be1e","a":"2020-01-01"}`,
+		`{"e":"zz","c":["2020-01-01","2020-01-02"],"a":"2020-01-01","f":"a@b.co"}`,
+		`{"b":"nope","d":5,"e":"a8098c1a-f86e-11da-bd1a-00112444be1e","a":"2020-01-01","f":"nope"}`,
 	}
 	for i := 0; i < 2*len(fmtInsts); i++ {
 		st, _ := json.Marshal(formatty())
@@ -332,6 +334,26 @@ func buildCatalogue(seed int64, rec *hook.Recorder, want int, withSpec bool) map
 			add(c)
 		}
 	}
+	// recycled parameter / header validators whose chain reaches the format checker (panic injection points of C11 too)
+	for i, pf := range []struct {
+		def string
+		val interface{}
+	}{
+		{`{"type":"string","format":"date"}`, "2020-01-01"},
+		{`{"type":"string","format":"email","minLength":1}`, "nope"},
+		{`{"type":"array","format":"date","items":{"type":"string","format":"date"}}`, []interface{}{"2020-01-01", "x"}},
+		{`{"type":"string","format":"uuid","enum":["a8098c1a-f86e-11da-bd1a-00112444be1e"]}`, "a8098c1a-f86e-11da-bd1a-00112444be1e"},
+	} {
+		for _, header := range []bool{false, true} {
+			def := pf.def
+			if !header {
+				def = `{"name":"p","in":"query",` + def[1:]
+			}
+			c := paramCall("pv-format", []byte(def), pf.val, header, i%2 == 0 || header)
+			c.Class = "pv-format"
+			add(c)
+		}
+	}
 	if withSpec {
 		for i, d := range gen.BaseDocs {
 			add(specCall("spec-valid", d, i%2 == 0))
@@ -398,6 +420,19 @@ func runHistory(args []string) error {
 	validate.VerifOnRedeem = rec.OnRedeem
 	validate.VerifOnBorrow = rec.OnBorrow
 	rec.Register(1)
+	// watchdog: a call that never returns (a pool corrupted by a defect can make validators chase their own tail) ends the
+	// run with a distinct exit status instead of hanging the check
+	var lastProgress atomic.Int64
+	lastProgress.Store(time.Now().Unix())
+	go func() {
+		for {
+			time.Sleep(5 * time.Second)
+			if time.Now().Unix()-lastProgress.Load() > 240 {
+				fmt.Fprintln(os.Stderr, "run-history: no call returned for 240s - giving up (inconclusive)")
+				os.Exit(4)
+			}
+		}
+	}()
 	cat := buildCatalogue(*seed, rec, 6, *withSpec)
 	classes := make([]string, 0, len(cat))
 	for k := range cat {
@@ -407,10 +442,12 @@ func runHistory(args []string) error {
 	}
 	sort.Strings(classes)
 	// dry run: number of format checks of the format-bearing calls
-	for _, c := range cat["os-format"] {
-		pr := &panicReg{Registry: strfmt.Default, k: -1}
-		alone(rec, c, pr)
-		c.NFmt = pr.n
+	for _, cl := range []string{"os-format", "pv-format"} {
+		for _, c := range cat[cl] {
+			pr := &panicReg{Registry: strfmt.Default, k: -1}
+			alone(rec, c, pr)
+			c.NFmt = pr.n
+		}
 	}
 	var histories [][]string
 	if *in != "" {
@@ -433,9 +470,11 @@ func runHistory(args []string) error {
 		var panicSteps []string
 		if *panics {
 			// every k from 1 to the number of format-checker invocations of every format-bearing workload
-			for ci, c := range cat["os-format"] {
-				for k := 1; k <= c.NFmt; k++ {
-					panicSteps = append(panicSteps, fmt.Sprintf("panic:os-format#%d:%d", ci, k))
+			for _, cl := range []string{"os-format", "pv-format"} {
+				for ci, c := range cat[cl] {
+					for k := 1; k <= c.NFmt; k++ {
+						panicSteps = append(panicSteps, fmt.Sprintf("panic:%s#%d:%d", cl, ci, k))
+					}
 				}
 			}
 			for ci := range cat["os-badref"] {
@@ -483,6 +522,7 @@ func runHistory(args []string) error {
 		validate.VerifResetPools()
 		hook.Forget()
 		rec.Drain()
+		rec.TrackBorrows(*full)
 		if *poison {
 			rec.SetMode("poison")
 		} else {
@@ -493,6 +533,7 @@ func runHistory(args []string) error {
 		prevClass := "-"
 		var executed []string
 		for si, step := range h {
+			lastProgress.Store(time.Now().Unix())
 			switch {
 			case step == "GC":
 				runtime.GC()
